@@ -912,9 +912,9 @@ func c18Class(o *c18Op) string {
 		if c18NeedsEscape(o.SK) || c18NeedsEscape(o.SB) {
 			return "src-key-escape"
 		}
-	case "createBucket", "putBucketAcl":
+	case "createBucket", "putBucketAcl", "putBucketAclGrants":
 		// owner + grantees: three entries of auth.ACL no longer fit the 256-character tag value
-		n := 1
+		n := 1 + len(o.Grants)
 		if v, _ := o.xh("x-amz-acl"); o.Canned == "public-read-write" || v == "public-read-write" {
 			n += 2
 		} else if o.Canned == "public-read" || v == "public-read" {
